@@ -100,8 +100,19 @@ impl<'a, 'tcx> FnCx<'a, 'tcx> {
                 } else {
                     None
                 };
+                let static_ref = match c.const_ {
+                    rustc_middle::mir::Const::Val(rustc_middle::mir::ConstValue::Scalar(rustc_middle::mir::interpret::Scalar::Ptr(p, _)), _) => {
+                        match self.cx.tcx.try_get_global_alloc(p.provenance.alloc_id()) {
+                            Some(rustc_middle::mir::interpret::GlobalAlloc::Static(d)) => Some(format!("static:{}", self.cx.path(d))),
+                            _ => None,
+                        }
+                    }
+                    _ => None,
+                };
                 let disp = if matches!(t.kind(), ty::FnDef(..)) {
                     String::from("fn")
+                } else if let Some(v) = static_ref {
+                    v
                 } else if let Some(v) = evaluated {
                     v
                 } else {
